@@ -1,4 +1,5 @@
 """C07 — EPA returns the minimum translation vector whenever it reports success (structural clauses)."""
+from . import scopes
 from ..core.report import DOMAIN_D
 from ..rules import eager, epa, mink, buffers, loops, degree
 from .common import e1
@@ -7,6 +8,7 @@ MODS = ["distance3d.epa"]
 
 
 def run(idx, rep, tier):
+    rep.set_scope(scopes.scope(idx, "C07"))
     rep.explanation = (
         "Static rules over distance3d/epa.py: no read of a NumPy view after its source row was overwritten (R-ALIAS, "
         "engine E1), every face passes normal computation and winding repair before it is selectable and the repair is a "
@@ -25,7 +27,7 @@ def run(idx, rep, tier):
                 rep.note("R-ALIAS match outside C07's scope (not a verdict): %s:%d %s" % (func.module.relpath, node.lineno, txt))
     epa.r_winding(idx, rep)
     epa.r_mtv(idx, rep)
-    mink.r_mink(idx, rep, modules=["distance3d.epa", "distance3d.minkowski"], floor=3)
+    mink.r_mink(idx, rep, modules=["distance3d.epa"], floor=2)
     buffers.r_guardstore(idx, rep, modules=set(MODS), floor=3)
     loops.r_loop(idx, rep, MODS, floor=5, allowed=("CAP", "STRUCT"))
     # R-FACEROLE: rows 0-2 of a face are vertices (degree 1), row 3 the unit normal (degree 0) wherever a face is read or written
